@@ -249,6 +249,10 @@ def node_run(arg):
     hyperscan.loadb = loadb
     seam.install()
     ext_idx = step.get("ext_alt", job["ext"])
+    if step.get("ext_perm") is not None and isinstance(ext_idx, list):
+        # the same extractors in another order (a re-sorted copy of the list)
+        ext_idx = list(ext_idx)
+        random.Random(step["ext_perm"]).shuffle(ext_idx)
     exts = tagged_extractors(ext_idx, flag_toggle=tuple(step.get("flag_toggle", ())))
     out = {"status": "ok"}
     try:
@@ -675,6 +679,15 @@ def _judge_life(job, step, si, kind, res, Bd, out, last_fault, start, who=None):
     st["life_ok"] += 1
     if step.get("ext_alt") is not None or step.get("flag_toggle"):
         return "ok-alt"
+    if step.get("ext_perm") is not None:
+        # same patterns, other order: the candidate multiset must be B's (which
+        # of two candidates on one span wins may legitimately follow the order)
+        for ti, (it, b) in enumerate(zip(res["texts"], Bd)):
+            if it.get("cand_d") != b[0]:
+                viol.append(dict(ctx, **{"class": "cache_tokens_differ", "ti": ti, "variant": "permuted",
+                                         "text": job["texts"][ti], "load": res.get("load")}))
+                break
+        return "ok-perm"
     got = [(it.get("cand_d"), it.get("cits_d")) for it in res["texts"]]
     for ti, (g, b) in enumerate(zip(got, Bd)):
         if g != b:
@@ -989,7 +1002,14 @@ class RunGen:
                     toggled = True
                     texts.append(fr["t"].lower())
                     texts.append("see " + fr["t"].swapcase() + ", and")
-            if 0.46 <= x < 0.46 + p_pair and not full:
+            elif x < 0.50 and not full and isinstance(ext, list):
+                life["ext_perm"] = fg.randrange(1 << 30)
+            foreign_prev = bool(steps) and steps[-1].get("k") == "life" and (
+                steps[-1].get("ext_alt") is not None or steps[-1].get("flag_toggle")
+                or steps[-1].get("ext_perm") is not None)
+            if foreign_prev and "crash" not in life and fg.random() < 0.5 and len(life) == 1:
+                life["crash"] = self.crash_plan(fg)
+            if 0.50 <= x < 0.50 + p_pair and not full:
                 steps.append({"k": "pair", "sched_seed": fg.randrange(1 << 30), "life": {}})
             else:
                 steps.append(life)
@@ -1048,6 +1068,26 @@ class RunGen:
                          "cell": f"crash-wbytes-{n}", "ext": ext, "chunk": 4096,
                          "texts": texts, "classes": {},
                          "steps": [{"k": "life", "crash": {"wbytes": n}}, {"k": "life"}, {"k": "life"}]})
+        # a database of another list / other order / other flags is in the
+        # directory, then the real list's first lifetime dies at every point
+        half = sorted(set(ext[: len(ext) // 2]) | set(self.special))
+        cit_pos = [i for i, x in enumerate(ext) if x not in self.special][:1]
+        foreign = [("alt", {"ext_alt": half}), ("perm", {"ext_perm": 12345})]
+        if cit_pos:
+            foreign.append(("toggle", {"flag_toggle": cit_pos}))
+        for fname, fstep in foreign:
+            for opk in range(1, 11):
+                for when in ("before", "after"):
+                    jobs.append({"seed": seeds.h64(root, "grid-foreign", fname, opk, when), "kind": "grid",
+                                 "cell": f"foreign-{fname}-crash-op{opk}-{when}", "ext": ext, "chunk": 4096,
+                                 "texts": texts, "classes": {},
+                                 "steps": [dict(fstep, k="life"),
+                                           {"k": "life", "crash": {"op": opk, "when": when}},
+                                           {"k": "life"}, dict(fstep, k="life"), {"k": "life"}]})
+            jobs.append({"seed": seeds.h64(root, "grid-foreign", fname), "kind": "grid",
+                         "cell": f"foreign-{fname}", "ext": ext, "chunk": 65536, "texts": texts, "classes": {},
+                         "steps": [{"k": "life"}, dict(fstep, k="life"), {"k": "life"},
+                                   dict(fstep, k="life"), {"k": "life"}]})
         for n in (0, 1, 32, 4096, 100000):
             jobs.append({"seed": seeds.h64(root, "grid-enospc", n), "kind": "grid",
                          "cell": f"enospc-{n}", "ext": ext, "chunk": 4096, "texts": texts, "classes": {},
@@ -1209,7 +1249,8 @@ class Checker:
             if sk in seen:
                 continue
             seen.add(sk)
-            if len(self.violations) >= 6 or time.monotonic() - t0 > 900:
+            if (len(self.violations) >= int(os.environ.get("VERIF_MAX_VIOLATIONS", "4"))
+                    or time.monotonic() - t0 > 900):
                 break
             k = report_mod.matches_known(known, sig)
             if k is not None:
@@ -1250,7 +1291,7 @@ class Checker:
             "exhaustive": False,
             "grid": {"cells": self.grid_cells, "completed": self.grid_done,
                      "exhaustive": self.grid_cells > 0 and self.grid_cells == self.grid_done,
-                     "what": "truncation at every length class, zero-filled tails, every single byte of the 32-byte header flipped, foreign values per header field, body flips/bytes, garbage, zeros, appended bytes, lost file, removed/empty directory, a crash before and after each of the first 8 storage operations, a crash after each write-length class, ENOSPC budgets -- each against a cache freshly written by the real code",
+                     "what": "a database of another extractor list / the same list permuted / the same expressions with other flags left in the directory followed by a crash before and after each of the first 10 storage operations of the next lifetime; truncation at every length class, zero-filled tails, every single byte of the 32-byte header flipped, foreign values per header field, body flips/bytes, garbage, zeros, appended bytes, lost file, removed/empty directory, a crash before and after each of the first 8 storage operations, a crash after each write-length class, ENOSPC budgets -- each against a cache freshly written by the real code",
                      "outcomes_sample": dict(list(sorted(self.grid_outcomes.items()))[:12])},
             "simulated_runs": self.runs,
             "runs_by_kind": dict(self.kinds),
